@@ -307,6 +307,138 @@ def propsLine (p : String) : String :=
     if r.isEmpty then "-" else ",".intercalate (r.map fun x => toString x.1 ++ ":" ++ (if x.2 then "1" else "0"))
   | _ => "bad"
 
+/-! ### an allOf of any number of members: `mergeNSchemes` folds `mergeSchemes` from the left, and (fix 944cde35) the
+merged schema keeps the union of the members' `required` lists, so that a name required by an early member reaches
+the member that declares it -/
+
+abbrev Member := List Prp × List Nat   -- properties, `required` list
+
+def merge2 (a b : Member) : Member := (mergeProps a.1 b.1 (a.2 ++ b.2), a.2 ++ b.2)
+
+def mergeN (first : Member) (rest : List Member) : Member := rest.foldl merge2 first
+
+/-- what the parser builds: a declared property is flagged exactly when the member's `required` list names it -/
+def FlagIff (m : Member) : Prop := ∀ p ∈ m.1, (p.2 = true ↔ p.1 ∈ m.2)
+
+theorem mem_names_mergeProps (p₁ p₂ : List Prp) (req : List Nat) (n : Nat) :
+    n ∈ names (mergeProps p₁ p₂ req) ↔ n ∈ names p₁ ∨ n ∈ names p₂ := by
+  rw [mergeProps_names]
+  simp only [List.mem_append, List.mem_filter, Bool.not_eq_true']
+  constructor
+  · rintro (h | ⟨h, _⟩)
+    · exact Or.inl h
+    · exact Or.inr h
+  · rintro (h | h)
+    · exact Or.inl h
+    · by_cases h1 : n ∈ names p₁
+      · exact Or.inl h1
+      · exact Or.inr ⟨h, by simpa using h1⟩
+
+theorem merge2_flagIff (a b : Member) (ha : FlagIff a) (hb : FlagIff b) : FlagIff (merge2 a b) := by
+  intro p hp
+  simp only [merge2] at hp ⊢
+  rcases List.mem_append.1 hp with h | h
+  · obtain ⟨x, hx, rfl⟩ := List.mem_map.1 h
+    simp only [Bool.or_eq_true, List.any_eq_true, Bool.and_eq_true, beq_iff_eq, List.contains_iff_mem,
+      List.mem_append]
+    constructor
+    · rintro ((hf | ⟨y, hy, hyn, hyf⟩) | hr)
+      · exact Or.inl ((ha x hx).1 hf)
+      · right; have := (hb y hy).1 hyf; rw [hyn] at this; exact this
+      · exact hr
+    · intro h; exact Or.inr h
+  · obtain ⟨y, hy, rfl⟩ := List.mem_map.1 h
+    simp only [Bool.or_eq_true, List.contains_iff_mem, List.mem_append]
+    constructor
+    · rintro (hf | hr)
+      · exact Or.inr ((hb y (List.mem_filter.1 hy).1).1 hf)
+      · exact hr
+    · intro h; exact Or.inr h
+
+theorem mergeN_spec : ∀ (rest : List Member) (acc : Member), FlagIff acc → (∀ m ∈ rest, FlagIff m) →
+    FlagIff (mergeN acc rest) ∧
+    (∀ n, n ∈ (mergeN acc rest).2 ↔ n ∈ acc.2 ∨ ∃ m ∈ rest, n ∈ m.2) ∧
+    (∀ n, n ∈ names (mergeN acc rest).1 ↔ n ∈ names acc.1 ∨ ∃ m ∈ rest, n ∈ names m.1) := by
+  intro rest
+  induction rest with
+  | nil => intro acc ha _; simp [mergeN, ha]
+  | cons b rest ih =>
+    intro acc ha hr
+    have hb := hr b (List.mem_cons_self ..)
+    have := ih (merge2 acc b) (merge2_flagIff acc b ha hb) (fun m hm => hr m (List.mem_cons_of_mem _ hm))
+    obtain ⟨h1, h2, h3⟩ := this
+    refine ⟨by simpa [mergeN] using h1, ?_, ?_⟩
+    · intro n
+      have := h2 n
+      simp only [mergeN, List.foldl_cons] at this ⊢
+      rw [this]; simp only [merge2, List.mem_append, List.mem_cons, exists_eq_or_imp]
+      constructor
+      · rintro ((h | h) | h)
+        · exact Or.inl h
+        · exact Or.inr (Or.inl h)
+        · exact Or.inr (Or.inr h)
+      · rintro (h | h | h)
+        · exact Or.inl (Or.inl h)
+        · exact Or.inl (Or.inr h)
+        · exact Or.inr h
+    · intro n
+      have := h3 n
+      simp only [mergeN, List.foldl_cons] at this ⊢
+      rw [this]; simp only [merge2, mem_names_mergeProps, List.mem_cons, exists_eq_or_imp]
+      constructor
+      · rintro ((h | h) | h)
+        · exact Or.inl h
+        · exact Or.inr (Or.inl h)
+        · exact Or.inr (Or.inr h)
+      · rintro (h | h | h)
+        · exact Or.inl (Or.inl h)
+        · exact Or.inl (Or.inr h)
+        · exact Or.inr h
+
+/-- **`required` of an allOf with any number of members**: when every required name is declared by some member, a
+    key set satisfies the merged object iff it holds every name any member requires — in whatever order the
+    members are written -/
+theorem mergeN_required_iff (first : Member) (rest : List Member) (K : Nat → Prop)
+    (hf : ∀ m ∈ first :: rest, FlagIff m)
+    (hd : ∀ m ∈ first :: rest, ∀ n ∈ m.2, ∃ m' ∈ first :: rest, n ∈ names m'.1) :
+    demands (mergeN first rest).1 K ↔ ∀ m ∈ first :: rest, ∀ n ∈ m.2, K n := by
+  obtain ⟨h1, h2, h3⟩ := mergeN_spec rest first (hf first (List.mem_cons_self ..))
+    (fun m hm => hf m (List.mem_cons_of_mem _ hm))
+  constructor
+  · intro h m hm n hn
+    have hreq : n ∈ (mergeN first rest).2 := by
+      rw [h2]; rcases List.mem_cons.1 hm with rfl | hm'
+      · exact Or.inl hn
+      · exact Or.inr ⟨m, hm', hn⟩
+    have hdecl : n ∈ names (mergeN first rest).1 := by
+      obtain ⟨m', hm', hn'⟩ := hd m hm n hn
+      rw [h3]; rcases List.mem_cons.1 hm' with rfl | hm''
+      · exact Or.inl hn'
+      · exact Or.inr ⟨m', hm'', hn'⟩
+    obtain ⟨p, hp, rfl⟩ := List.mem_map.1 hdecl
+    exact h p hp ((h1 p hp).2 hreq)
+  · intro h p hp hflag
+    have := (h1 p hp).1 hflag
+    rw [h2] at this
+    rcases this with h' | ⟨m, hm, h'⟩
+    · exact h first (List.mem_cons_self ..) _ h'
+    · exact h m (List.mem_cons_of_mem _ hm) _ h'
+
+example : (mergeN ([], [2]) [([(1, false)], []), ([(2, false)], [])]).1 = [(1, false), (2, true)] := by decide
+
+def membersOf (s : String) : List Member :=
+  (s.splitOn ";").map fun t =>
+    match t.splitOn "/" with
+    | [a, r] => (prpsOf a, natsOf r)
+    | _ => ([], [])
+/-- `nmerge <props>/<req>;<props>/<req>;…` -/
+def nmergeLine (p : String) : String :=
+  match membersOf p with
+  | [] => "bad"
+  | first :: rest =>
+    let r := (mergeN first rest).1
+    if r.isEmpty then "-" else ",".intercalate (r.map fun x => toString x.1 ++ ":" ++ (if x.2 then "1" else "0"))
+
 /-! line protocol: `bmerge <max1> <ex1> <min1> <exm1> <max2> <ex2> <min2> <exm2>` (`-` = no bound, flags 0/1) -/
 def bOf (v e : String) : Bnd := ⟨if v == "-" then none else v.toInt?, e == "1"⟩
 def showB (b : Bnd) : String :=
